@@ -56,7 +56,8 @@ Section Push.
 
   (** *** input chunks that carry a selection vector (what the pull operators hand over through
       OperatorSource): [phys] = the physical rows, [sel] = the selected physical indices (ascending,
-      in range).  FilterPushOperator and DistinctPushOperator build their output selection with
+      in range).  Before c37ad07 ([push_sel_pre], finding C17-K9)
+      FilterPushOperator and DistinctPushOperator built their output selection with
       [SelectionVector::from_predicate(chunk.len(), ..)], LimitPushOperator with
       [SelectionVector::new_all(remaining)]: the positions 0..len-1, where len is the number of
       SELECTED rows, are taken for PHYSICAL row indices and then intersected with the input
@@ -82,7 +83,7 @@ Section Push.
         end
     end.
 
-  Definition push_sel (k : opk) (s : opst) (phys : list R) (sel : list nat) : opst * list (list R) * bool :=
+  Definition push_sel_pre (k : opk) (s : opst) (phys : list R) (sel : list nat) : opst * list (list R) * bool :=
     let n := length sel in
     match k with
     | OFilter p => (s, keep (pick phys sel n (fun _ r => p r)), true)
@@ -102,15 +103,22 @@ Section Push.
     | OProject f => (s, keep (map f (sel_rows phys sel)), true)
     end.
 
-  (** finding class C17-K9: an input chunk whose selection is not the prefix 0..len-1 *)
+  (** since c37ad07 the operators work on the selected rows: filter keeps the qualifying selected rows,
+      DISTINCT builds its output selection over the physical rows, LIMIT slices the first selected rows *)
+  Definition push_sel (k : opk) (s : opst) (phys : list R) (sel : list nat) : opst * list (list R) * bool :=
+    push k s (sel_rows phys sel).
+
+  (** finding class C17-K9 (before c37ad07): an input chunk whose selection is not the prefix 0..len-1 *)
   Definition sel_is_prefix (sel : list nat) : bool :=
     (fix go (i : nat) (l : list nat) : bool :=
        match l with [] => true | j :: t => (j =? i) && go (S i) t end) 0 sel.
   Definition k_sel_not_prefix (sels : list (list nat)) : bool := existsb (fun sel => negb (sel_is_prefix sel)) sels.
 
+  (** SortPushOperator::finalize emits the sorted rows in chunks of DEFAULT_CHUNK_SIZE = 2048 rows
+      (6cf03c8; one chunk with everything before) *)
   Definition finish (k : opk) (s : opst) : list (list R) :=
     match k with
-    | OSort cmp => keep (isort cmp (s_buf s))
+    | OSort cmp => chunks_of 2048 (isort cmp (s_buf s))
     | _ => []
     end.
 
@@ -163,6 +171,8 @@ Section Push.
       (same length). *)
   Definition hd_st (ss : list opst) : opst := match ss with s :: _ => s | [] => st0 end.
 
+  (** Pipeline::push_through / ParallelPipeline::push_through_chain since b341ff4: what an operator emitted
+      together with its stop signal still travels down the chain; the stop is reported afterwards *)
   Fixpoint push_through (ks : list opk) (ss : list opst) (c : list R) : list opst * list (list R) * bool :=
     match ks with
     | [] => ([], keep c, true)
@@ -171,10 +181,10 @@ Section Push.
         match krest with
         | [] => ([s'], out, cont)
         | _ :: _ =>
-            (* "if !continue_processing || collector.is_empty() { return Ok(continue_processing) }":
-               whatever the operator emitted together with its stop signal is dropped *)
-            if negb cont || (match out with [] => true | _ => false end) then (s' :: tl ss, [], cont)
-            else let '(ss', o, c') := push_through krest (tl ss) (concat out) in (s' :: ss', o, c')
+            match out with
+            | [] => (s' :: tl ss, [], cont)                       (* "if collector.is_empty() { return Ok(keep_going) }" *)
+            | _ :: _ => let '(ss', o, c') := push_through krest (tl ss) (concat out) in (s' :: ss', o, cont && c')
+            end
         end
     end.
 
@@ -206,13 +216,13 @@ Section Push.
   Definition run_chain (ks : list opk) (cs : list (list R)) : list (list R) :=
     let '(ss, out) := drive_chain ks (init_chain ks) cs in out ++ finalize_all ks ss.
 
-  (** *** LimitingSink (execution/sink.rs): counts at most [lim] rows but keeps the whole chunk that
-      crosses the limit ("For now, we'll take the whole chunk but track correctly") *)
+  (** *** LimitingSink (execution/sink.rs): keeps the first [lim] rows; the chunk that crosses the limit
+      is truncated with [chunk.slice(0, rows_needed)] (e002bb7; kept whole before: finding C17-K10) *)
   Definition lsink_consume (lim collected : nat) (c : list R) : nat * list (list R) * bool :=
     if lim <=? collected then (collected, [], false)
     else let need := lim - collected in
          if length c <=? need then (collected + length c, keep c, collected + length c <? lim)
-         else (collected + need, keep c, false).
+         else (collected + need, keep (firstn need c), false).
   (** every chunk is offered (the caller may ignore the answer); returns the kept chunks and the answers *)
   Fixpoint lsink_run (lim collected : nat) (cs : list (list R)) : list (list R) * list bool :=
     match cs with
@@ -220,12 +230,54 @@ Section Push.
     | c :: r => let '(col', out, b) := lsink_consume lim collected c in
                 let '(o2, b2) := lsink_run lim col' r in (out ++ o2, b :: b2)
     end.
-  (** finding class C17-K10: a chunk crosses the limit *)
+  (** finding class C17-K10 (before e002bb7): a chunk crosses the limit *)
   Fixpoint k_lsink_overshoot (lim collected : nat) (cs : list (list R)) : bool :=
     match cs with
     | [] => false
     | c :: r => ((collected <? lim) && (lim - collected <? length c)) || k_lsink_overshoot lim (Nat.min lim (collected + length c)) r
     end.
+
+  (** *** the chain driver before b341ff4 (finding C17-K5): whatever an operator emitted together with
+      its stop signal was dropped *)
+  Fixpoint push_through_pre (ks : list opk) (ss : list opst) (c : list R) : list opst * list (list R) * bool :=
+    match ks with
+    | [] => ([], keep c, true)
+    | k :: krest =>
+        let '(s', out, cont) := push k (hd_st ss) c in
+        match krest with
+        | [] => ([s'], out, cont)
+        | _ :: _ =>
+            (* "if !continue_processing || collector.is_empty() { return Ok(continue_processing) }":
+               whatever the operator emitted together with its stop signal is dropped *)
+            if negb cont || (match out with [] => true | _ => false end) then (s' :: tl ss, [], cont)
+            else let '(ss', o, c') := push_through_pre krest (tl ss) (concat out) in (s' :: ss', o, c')
+        end
+    end.
+
+  Fixpoint push_all_pre (ks : list opk) (ss : list opst) (cs : list (list R)) : list opst * list (list R) :=
+    match cs with
+    | [] => (ss, [])
+    | c :: r => let '(ss', o, _) := push_through_pre ks ss c in
+                let '(ss'', o2) := push_all_pre ks ss' r in (ss'', o ++ o2)
+    end.
+  Fixpoint finalize_all_pre (ks : list opk) (ss : list opst) : list (list R) :=
+    match ks with
+    | [] => []
+    | k :: krest =>
+        match krest with
+        | [] => finish k (hd_st ss)
+        | _ :: _ => let '(ss', o) := push_all_pre krest (tl ss) (finish k (hd_st ss)) in o ++ finalize_all_pre krest ss'
+        end
+    end.
+  Fixpoint drive_chain_pre (ks : list opk) (ss : list opst) (cs : list (list R)) : list opst * list (list R) :=
+    match cs with
+    | [] => (ss, [])
+    | c :: r =>
+        let '(ss', out, cont) := push_through_pre ks ss c in
+        if cont then let '(ss'', o2) := drive_chain_pre ks ss' r in (ss'', out ++ o2) else (ss', out)
+    end.
+  Definition run_chain_pre (ks : list opk) (cs : list (list R)) : list (list R) :=
+    let '(ss, out) := drive_chain_pre ks (map (fun _ => st0) ks) cs in out ++ finalize_all_pre ks ss.
 
   (** *** Pipeline::compute_chunk_size and the VectorSource *)
   Definition DEFAULT_CHUNK_SIZE := 2048.
@@ -239,17 +291,21 @@ Section Push.
 
   Inductive presult := PDiverge | PRows (out : list (list R)).
 
-  (** Pipeline::execute over a VectorSource.  With chunk size 0 (a LIMIT 0 somewhere in the chain)
-      the source yields empty chunks for ever; pushing an empty chunk changes no state, so the run
-      ends iff that push answers false. *)
+  (** Pipeline::execute over a VectorSource: the chunk size is [compute_chunk_size().max(1)] (3d7a126) *)
   Definition pipeline_run (ks : list opk) (rows : list R) : presult :=
+    PRows (run_chain ks (chunks_of (Nat.max 1 (compute_chunk_size ks)) rows)).
+
+  (** before 3d7a126 / b341ff4: with chunk size 0 (a LIMIT 0 somewhere in the chain) the source yields
+      empty chunks for ever; pushing an empty chunk changes no state, so the run ends iff that push
+      answers false (finding C17-K7) *)
+  Definition pipeline_run_pre (ks : list opk) (rows : list R) : presult :=
     let size := compute_chunk_size ks in
     if (size =? 0) && negb (match rows with [] => true | _ => false end) then
-      let '(ss, out, cont) := push_through ks (init_chain ks) [] in
-      if cont then PDiverge else PRows (out ++ finalize_all ks ss)
-    else PRows (run_chain ks (chunks_of size rows)).
+      let '(ss, out, cont) := push_through_pre ks (map (fun _ => st0) ks) [] in
+      if cont then PDiverge else PRows (out ++ finalize_all_pre ks ss)
+    else PRows (run_chain_pre ks (chunks_of size rows)).
 
-  (** finding class C17-K5: an operator that is not the last one of the chain is a LIMIT that the
+  (** finding class C17-K5 (before b341ff4): an operator that is not the last one of the chain is a LIMIT that the
       input exhausts (its last output is dropped together with the stop signal) *)
   Fixpoint k_inner_limit_hit (ks : list opk) (nrows : nat) : bool :=
     match ks with
@@ -257,7 +313,7 @@ Section Push.
     | OLimit n :: rest => ((0 <? n) && (n <=? nrows)) || k_inner_limit_hit rest (Nat.min n nrows)
     | _ :: rest => k_inner_limit_hit rest nrows
     end.
-  (** finding class C17-K7: chunk size hint 0 and the first operator is not the LIMIT 0 *)
+  (** finding class C17-K7 (before 3d7a126): chunk size hint 0 and the first operator is not the LIMIT 0 *)
   Definition k_zero_chunk_hang (ks : list opk) (nrows : nat) : bool :=
     (compute_chunk_size ks =? 0) && (0 <? nrows)
     && match ks with OLimit 0 :: _ => false | _ => true end.
